@@ -24,20 +24,30 @@
      (state error, nothing is ever emitted again: Proofs dead_run).
 
    clause "never sends a byte beyond the right edge of the window the peer has offered (after scaling)"
-       -> C04_never_beyond_peer_window_sendData (FULL for everything the send loop emits: new data
-          and ALL retransmissions after a retransmission time-out, which are re-split against the
-          window in force), C04_never_beyond_peer_window_partial (every event: every data frame
-          lies within sndUna+sndWnd of the resulting state, except possibly the frame re-sent by
-          resendSegment on a fast_rexmit_event), C04_never_beyond_peer_window_refuted (the clause
-          as worded is FALSE for fast retransmissions after the peer shrank its window: witness),
+       -> C04_never_beyond_peer_window_sendData (FULL, all states, for everything the send loop
+          emits: new data and ALL retransmissions after a retransmission time-out, which are
+          re-split against the window in force),
+          C04_never_beyond_peer_window_partial (all states, every event: every data frame lies
+          within sndUna+sndWnd of the resulting state, except possibly the frame re-sent by
+          resendSegment on a fast_rexmit_event),
+          C04_never_beyond_peer_window_refuted (the clause as worded is FALSE for fast
+          retransmissions after the peer shrank its window: reachable witness),
+          C04_never_beyond_offered_edge_step / C04_never_beyond_offered_edge (under the sender
+          invariant SInv, write side open: EVERY data frame, fast retransmissions included, ends
+          at or before the HIGHEST right edge the peer has offered so far, starts at or after
+          sndUna), C04_never_beyond_peer_window_noshrink (hence within the window in force
+          whenever the event does not move the peer's right edge to the left),
           C04_window_scaling_applied_in (the window used is s_wnd << sndWndScale).
-          FIN carries no data and is exempt, as in the code.
+          FIN carries no data and is exempt, as in the code; histories containing a shutdown of
+          the write side are covered by the first three theorems only.
    clause "nor a segment larger than the peer's MSS or the path MTU allows"
-       -> C04_seg_within_mss (len <= maxPayload for every frame of the send loop; maxPayload never
-          changes in the model).  maxPayload itself is computed by the handshake from the peer's
-          MSS option and the route MTU minus headers/options (newSender, updateMaxPayloadSize):
-          OUTSIDE this model; the correspondence monitor checks it against the MSS option and the
-          MTU on every trace.  Same exception (the resendSegment frame) as above.
+       -> C04_seg_within_mss (all states: len <= maxPayload for every frame of the send loop;
+          maxPayload never changes in the model), C04_never_beyond_offered_edge_step (under SInv:
+          len <= maxPayload for EVERY data frame, fast retransmissions included).
+          maxPayload itself is computed by the handshake from the peer's MSS option and the route
+          MTU minus headers/options (newSender, updateMaxPayloadSize) and may shrink on ICMP
+          packet-too-big: OUTSIDE this model; the correspondence monitor checks every emitted
+          segment against the MSS option and the MTU on every trace.
    clause "the right edge it advertises never moves left"
        -> C04_right_edge_monotone_partial (all histories: rcvNxt and rcvAcc offsets never decrease,
           every advertised edge <= rcvAcc, consecutive edges never move left by 2^scale or more),
@@ -61,7 +71,7 @@
 From Coq Require Import ZArith Bool List.
 From RecordUpdate Require Import RecordSet.
 From NP Require Import Model.Seqnum Model.Tcp Proofs.SeqnumP Proofs.TcpWndP Proofs.TcpWndRcvP Proofs.TcpWndRcv2P
-  Proofs.TcpWndRcv3P Proofs.TcpWndThmP.
+  Proofs.TcpWndRcv3P Proofs.TcpWndThmP Proofs.TcpWndSndP Proofs.TcpWndSnd2P Proofs.TcpWndSnd3P.
 Import ListNotations RecordSetNotations.
 Open Scope Z_scope.
 
@@ -109,6 +119,49 @@ Theorem C04_seg_within_mss : forall t e, 0 <= maxPayload (SN t) ->
   maxPayload (SN t') = maxPayload (SN t).
 Proof. exact seg_within_mss. Qed.
 Print Assumptions C04_seg_within_mss.
+
+(* ---- clauses 1 and 2 for EVERY data frame, fast retransmissions included, while the write side is
+   open (no FIN queued).  [SInv b E u m x t]: the sender invariant in stream offsets relative to
+   b = iss: sndUna = seq_of b u, sndNxt = seq_of b x (x <= u + 2^30), the write list before writeNext
+   is a contiguous chain of sent segments from u to m, each of at most maxPayload bytes and ending
+   at or before E; from writeNext on: sent segments up to x (after a time-out), then at most one
+   numbered unsent element at x, then unnumbered ones; 1 <= maxPayload <= 65535; sndWnd <= 2^30;
+   u + sndWnd <= E <= u + 2^30 (E = highest right edge offered so far); in fast recovery
+   u <= offset(frLast) < x.  [SFr b u E mp f]: f has no data, or f_seq = seq_of b o with
+   u <= o, o + len <= E, len <= mp.  [ev_snd_ok]: ack field is a uint32, raw window <= 65535, and
+   the event is not a shutdown of the write side. ---- *)
+(* one event: every data frame lies in [sndUna', E') with E' = max E (sndUna' + sndWnd') — the
+   highest right edge the peer has offered so far — and is at most maxPayload long — full under SInv *)
+Theorem C04_never_beyond_offered_edge_step : forall b E u m x t e,
+  SInv b E u m x t -> ev_snd_ok e ->
+  let t' := fst (step t e) in
+  exists u' m' x', u <= u' /\ x <= x' /\
+    SInv b (Z.max E (u' + sndWnd (SN t'))) u' m' x' t' /\
+    Forall (SFr b u' (Z.max E (u' + sndWnd (SN t'))) (maxPayload (SN t))) (out t') /\
+    maxPayload (SN t') = maxPayload (SN t).
+Proof. exact snd_step. Qed.
+Print Assumptions C04_never_beyond_offered_edge_step.
+
+Theorem C04_never_beyond_offered_edge : forall b es E u m x t,
+  SInv b E u m x t -> Forall ev_snd_ok es ->
+  exists E' u' m' x', E <= E' /\ u <= u' /\ SInv b E' u' m' x' (run t es) /\
+    Forall (SFr b u E' (maxPayload (SN t))) (run_out t es) /\
+    maxPayload (SN (run t es)) = maxPayload (SN t).
+Proof. exact snd_run. Qed.
+Print Assumptions C04_never_beyond_offered_edge.
+
+(* if the event does not move the peer's right edge to the left, every data frame — new data,
+   time-out retransmissions and fast retransmissions — lies within the window in force — partial
+   (this is the hypothesis under which the clause as worded holds) *)
+Theorem C04_never_beyond_peer_window_noshrink : forall b u m x t e,
+  SInv b (u + sndWnd (SN t)) u m x t -> ev_snd_ok e ->
+  let t' := fst (step t e) in
+  lessThan (add (sndUna (SN t')) (sndWnd (SN t'))) (add (sndUna (SN t)) (sndWnd (SN t))) = false ->
+  exists u' m' x', SInv b (u' + sndWnd (SN t')) u' m' x' t' /\
+    Forall (within_window (sndUna (SN t')) (sndWnd (SN t'))) (out t') /\
+    Forall (fun f => len (f_data f) <= maxPayload (SN t)) (out t').
+Proof. exact snd_step_noshrink. Qed.
+Print Assumptions C04_never_beyond_peer_window_noshrink.
 
 (* ---- clauses 3, 4, 6: what one event advertises ---- *)
 Theorem C04_advertised_window_step : forall b n a t e,
